@@ -17,6 +17,7 @@ def run(rep):
     t3(rep, w)
     t4(rep, w)
     t5(rep, w)
+    t6(rep, w)
 
 
 def t1(rep, w):
@@ -281,3 +282,104 @@ def summarise(comp):
     if anchors:
         return 'recursive descent: ' + '+'.join(anchors)
     return 'cycle: ' + '+'.join(names[:6])
+
+
+def t6(rep, w):
+    """arbitrary Unicode: the scanner only slices its source at positions that are character boundaries by construction --
+    results of get_next_char_boundary, the cursor fields (which are only ever assigned such results or each other), 0 and len()"""
+    c = w.yarel
+    r = rep.rule('T6', 'the scanner slices the source only at positions produced by get_next_char_boundary (or the cursor fields / 0 / len)', floor=6)
+    GB = SC + 'get_next_char_boundary'
+    SAFE_FIELDS = {'current', 'start'}
+
+    def safe_identity(f, org, o):
+        k = op_const(o)
+        if k is not None:
+            return k.get('v') == 0, 'const %s' % k.get('v')
+        pl = op_place(o)
+        if pl is None:
+            return False, '?'
+        toks0 = [e.get('n') for e in pl.get('p', []) if isinstance(e, dict) and 'n' in e]
+        if toks0 and toks0[-1] in SAFE_FIELDS:
+            return True, toks0[-1]
+        paths = org.get(pl['l'], set())
+        if not paths:
+            return False, 'unknown'
+        why = []
+        for q in paths:
+            toks = [t for t in q[1:] if t != '*' and not t.startswith('@') and not t.startswith('in ') and not t.startswith('as ')]
+            if q[0][0] == 'call' and q[0][2] == GB and not toks:
+                continue
+            if q[0][0] == 'call' and strip_generics(q[0][2]).endswith('::len') and not toks:
+                continue
+            if q[0][0] == 'arg' and toks and toks[-1] in SAFE_FIELDS and '#bin' not in toks:
+                continue
+            if q[0][0] == 'const' and q[0][1] == 0 and not toks:
+                continue
+            why.append('%s %s' % (q[0][2].rsplit('::', 1)[-1] if q[0][0] == 'call' else q[0], toks))
+        return not why, '; '.join(why[:2])
+    n = 0
+    # inside an identifier token every byte offset is a boundary, because identifier() only advances over ASCII letters, digits
+    # and '_': the keyword matcher may therefore slice at start + k. Checked: who calls the matcher, and that the character
+    # classes are ASCII-only.
+    ASCII_TOKEN_FNS = {SC + 'identifier_type', SC + 'check_keyword'}
+    for p_ in sorted(ASCII_TOKEN_FNS):
+        callers = {g.path for (g, bi, t) in c01.callers_of(w, p_)}
+        r.check(callers <= {SC + 'identifier', SC + 'identifier_type'} and bool(callers), '%s is only used on identifier tokens' % p_.rsplit('::', 1)[-1],
+                'the keyword matcher (which slices at fixed byte offsets) is also called from %s' % sorted(callers - {SC + 'identifier', SC + 'identifier_type'}))
+    idf = w.require_fn(SC + 'identifier', 'C03')
+    cls = {callee_name(t) for _, t in idf.calls()} & {'yarel::scanner::is_alpha', 'yarel::scanner::is_digit'}
+    adv = [callee_name(t) for _, t in idf.calls() if callee_name(t) == SC + 'advance']
+    r.check(cls == {'yarel::scanner::is_alpha', 'yarel::scanner::is_digit'} and bool(adv), 'identifier() advances only while is_alpha / is_digit hold',
+            'identifier() no longer restricts the token to is_alpha/is_digit characters', idf.loc())
+    for nm in ('is_alpha', 'is_digit'):
+        g = w.require_fn('yarel::scanner::' + nm, 'C03')
+        preds = set()
+        for h in [g] + [x for x in w.fns.values() if x.kind == 'Closure' and x.parent == g.path]:
+            for _, t in h.calls():
+                n_ = strip_generics(callee_name(t) or '')
+                if '::is_' in n_ and 'char' in n_:
+                    preds.add(n_.rsplit('::', 1)[-1])
+        r.check(bool(preds) and all(x.startswith('is_ascii') for x in preds), '%s accepts ASCII characters only (%s)' % (nm, sorted(preds)),
+                '%s uses %s: a multi-byte letter becomes part of an identifier and the keyword matcher slices inside it' % (nm, sorted(preds)), g.loc())
+    for f in sorted(c.fns.values(), key=lambda x: x.path):
+        if not f.file.endswith('scanner.rs') or f.path in ASCII_TOKEN_FNS:
+            continue
+        org = None
+        for bi, t in f.calls():
+            name = callee_name(t) or ''
+            if not (name.endswith('::index') and ('str' in name or 'String' in name)):
+                continue
+            if org is None:
+                org = origins(f)
+            base = op_place(t['args'][0])
+            if base is None or 'source' not in {tok for q in org.get(base['l'], ()) for tok in q[1:]} | {e.get('n') for e in base.get('p', []) if isinstance(e, dict)}:
+                continue
+            pl = op_place(t['args'][1])
+            ends = []
+            for b in f.blocks:
+                for s in b['s']:
+                    if s.get('d', {}).get('l') == pl['l'] and s['r'].get('rv') == 'agg':
+                        ends = s['r']['ops']
+            for which, e in zip(('start', 'end'), ends):
+                n += 1
+                ok, why = safe_identity(f, org, e)
+                r.check(ok, '%s / source slice %s' % (f.path, which), 'the scanner slices its source at a position that is not a character boundary by '
+                        'construction (%s): a multi-byte character at that position makes the compiler panic' % why, f.loc(t.get('sp')))
+        # writers of the cursor fields
+        for bi in f.normal_blocks():
+            for s in f.blocks[bi]['s']:
+                d = s.get('d', {})
+                if d.get('p') and isinstance(d['p'][-1], dict) and d['p'][-1].get('n') in SAFE_FIELDS and '*' in d['p']:
+                    if org is None:
+                        org = origins(f)
+                    rr = s['r']
+                    if rr.get('rv') == 'use':
+                        ok, why = safe_identity(f, org, rr['o'])
+                    else:
+                        ok, why = False, rr.get('rv')
+                    n += 1
+                    r.check(ok, '%s / writes Scanner.%s' % (f.path, d['p'][-1]['n']), 'the scanner cursor is set to a position that is not a character '
+                            'boundary by construction (%s)' % why, f.loc(s.get('sp')))
+    if n < 6:
+        raise Broken('C03', 'floor', 'T6: only %d slice endpoints / cursor writes found in the scanner' % n)
